@@ -175,6 +175,42 @@ def run_rand(shard, rec, B):
         ok, R = rec.attempt("empty.list", N, lambda: (len(E), E.L, E.N, B.np(E.tokenize()).shape, B.np(E.weight()).shape, repr(E), B.gsps(-E)[1].shape, B.gsps(E[0:0])[0].shape))
         if ok:
             rec.check("empty.list", R == (0, 0, N, (0, N + 1), (0,), "", (0,), (0, 2 * N)), ["empty", N], False, observed=repr(R))
+    # descriptions that cannot be read are refused, not guessed
+    for what, call, exc in (("dict without N", lambda: lib.pauli({0: 'X'}), ValueError), ("float", lambda: lib.pauli(1.5), TypeError),
+                            ("None", lambda: lib.pauli(None), TypeError), ("set", lambda: lib.pauli({1, 2}), TypeError),
+                            ("dict beyond N", lambda: lib.pauli({3: 'X'}, 2), (AssertionError, ValueError, IndexError))):
+        try:
+            r_ = call()
+            got = "accepted: %r" % (r_,)
+        except exc:
+            got = "refused"
+            rec.refusal("parse.reject:" + what)
+        except Exception as e:
+            got = type(e).__name__
+        rec.check("parse.reject", got == "refused", what, True, expected="refused", observed=got)
+    # selection from a polynomial keeps each term's coefficient with its string and phase
+    for t in range(20):
+        N, L = int(rng.integers(1, 6)), int(rng.integers(2, 9))
+        gs, ps, cs = gen.rand_list(rng, L, N), rng.integers(0, 4, L), gen.rand_coeffs(rng, L) + 0.25
+        H = B.Poly(gs.copy(), ps.copy(), cs.copy())
+        for kind, ix in _index_exprs(rng, L, negstep=(B.name == 'np')):
+            lab = [[O.show(g, p) for g, p in zip(gs, ps)], kind, repr(ix)]
+            ok, R = rec.attempt("index.poly." + kind, lab, lambda: H[ix])
+            if not ok:
+                continue
+            try:
+                if kind == "int" and B.name == "np":
+                    g1, p1 = B.gp(R)
+                    good = np.array_equal(g1, gs[ix]) and p1 == ps[ix] % 4 and abs(complex(R.c) - cs[ix]) < 1e-6
+                else:
+                    ixn = np.asarray(ix) if isinstance(ix, list) else ix
+                    qg, qp = B.gsps(R)
+                    qg, qc = qg.reshape(-1, 2 * N), np.atleast_1d(B.cnp(R.cs))
+                    eg, ep, ec = gs[ixn].reshape(-1, 2 * N), np.atleast_1d(ps[ixn] % 4), np.atleast_1d(cs[ixn])
+                    good = qg.shape == eg.shape and np.array_equal(qg, eg) and np.array_equal(np.atleast_1d(qp), ep) and np.allclose(qc, ec, atol=1e-6)
+            except Exception as e:
+                good = False
+            rec.check("index.poly." + kind, good, lab, True)
     ok, Q = rec.attempt("parse.list.tuple", "tuple", lambda: lib.paulis(("XYZ", "-ZZI", "iIII")))
     if ok:
         qg, qp = B.gsps(Q)
